@@ -106,6 +106,78 @@ def run_splitjoin(c):
     return s1 + " || " + s2, before, facts, (m, blocks)
 
 
+# ----------------------------------------------------------------------------- joining intervals that were never one interval
+def gen_parts(rnd):
+    parts, bid, addr = [], 0, 0x1000 + rnd.choice([0, 0, 5])
+    for _ in range(rnd.randint(2, 4)):
+        size = rnd.randint(1, 8)
+        init = size if rnd.random() < 0.8 else rnd.randint(0, size)
+        blocks, pos = [], 0
+        while pos < size and len(blocks) < 3:
+            sz = min(rnd.choice([1, 1, 2, 3]), size - pos)
+            blocks.append((bid, pos, sz, rnd.random() < 0.6))
+            bid += 1
+            pos += sz + (1 if rnd.random() < 0.2 else 0)
+        parts.append(dict(size=size, init=init, blocks=blocks, symex={o: 100 + bid * 10 + o for o in range(size) if rnd.random() < 0.15},
+                          tabs=[{o: 100 * t + 10 * bid + o for o in range(size) if rnd.random() < 0.12} for t in range(3)], addr=addr))
+        addr += size
+    align = {b[0]: rnd.choice([2, 4]) for p in parts for b in p["blocks"] if rnd.random() < 0.15}
+    return dict(parts=parts, align=align)
+
+
+def join_line(c):
+    p = ["join", str(len(c["parts"]))]
+    fill = 1
+    for part in c["parts"]:
+        data = bytes((fill + k) % 251 + 1 for k in range(part["init"]))
+        fill += part["init"]
+        p += [str(part["addr"]), str(part["size"]), data.hex() or "-", str(len(part["blocks"]))]
+        for b in part["blocks"]:
+            p.append(f"{b[0]} {b[1]} {b[2]} {1 if b[3] else 0}")
+        p.append(str(len(part["symex"])) + " " + " ".join(f"{o} {v}" for o, v in sorted(part["symex"].items())))
+        for t in part["tabs"]:
+            p.append(str(len(t)) + " " + " ".join(f"{o} {v}" for o, v in sorted(t.items())))
+    p.append(str(len(c["align"])) + " " + " ".join(f"{b} {a}" for b, a in sorted(c["align"].items())))
+    return " ".join(p)
+
+
+def run_join(c):
+    import gtirb
+    from gtirb_rewriting.intervalutils import join_byte_intervals
+    ir = gtirb.IR()
+    m = gtirb.Module(name="m", isa=gtirb.Module.ISA.X64, file_format=gtirb.Module.FileFormat.ELF, byte_order=gtirb.Module.ByteOrder.Little, ir=ir)
+    sec = gtirb.Section(name=".text", module=m)
+    ivs, blocks, syms = [], {}, {}
+    tabs = [{} for _ in range(3)]
+    fill = 1
+    for part in c["parts"]:
+        data = bytes((fill + k) % 251 + 1 for k in range(part["init"]))
+        fill += part["init"]
+        bi = gtirb.ByteInterval(contents=data, size=part["size"], address=part["addr"], section=sec)
+        for (bid, off, sz, code) in part["blocks"]:
+            blocks[bid] = (gtirb.CodeBlock if code else gtirb.DataBlock)(offset=off, size=sz, byte_interval=bi)
+        for o, v in part["symex"].items():
+            s = gtirb.Symbol(f"x{v}", module=m)
+            syms[id(s)] = v
+            bi.symbolic_expressions[o] = gtirb.SymAddrConst(0, s)
+        for t in range(3):
+            for o, v in part["tabs"][t].items():
+                tabs[t][gtirb.Offset(bi, o)] = f"c{v}" if t == 0 else v
+        ivs.append(bi)
+    for t, name in enumerate(TABLES):
+        m.aux_data[name] = gtirb.AuxData(tabs[t], "mapping<Offset,string>" if t == 0 else "mapping<Offset,uint64_t>")
+    m.aux_data["alignment"] = gtirb.AuxData({blocks[b]: a for b, a in c["align"].items()}, "mapping<UUID,uint64_t>")
+    try:
+        j = join_byte_intervals(ivs, b"\x90", m.aux_data["alignment"].data)
+        out = dump_interval(m, j, blocks, syms)
+        left = [name for name in TABLES for o in m.aux_data[name].data if o.element_id is not j]
+        if left:
+            out += " LEFTOVER " + ",".join(sorted(set(left)))
+    except Exception as e:   # noqa
+        out = "err " + ("ValueError" if type(e).__name__ == "PaddingError" else type(e).__name__)
+    return out
+
+
 class C10(IRProp):
     id = "C10"
     prop_file = "Properties/C10.v"
@@ -136,6 +208,14 @@ class C10(IRProp):
         lines = [model_line(c) for c in cases]
         got = C.run_driver("iu", lines)
         dis = [{"case": l, "implementation": r[0], "model": g} for l, r, g in zip(lines, runs, got) if r[0] != g]
+        # joining intervals that were never one interval (what apply() does after patches put entries into later intervals)
+        rnd = C.rng("c10-join")
+        jcases = [gen_parts(rnd) for _ in range(len(cases) // 2)]
+        jlines = [join_line(c) for c in jcases]
+        jimpl = [run_join(c) for c in jcases]
+        jgot = C.run_driver("iu", jlines)
+        dis += [{"case": l, "implementation": o, "model": g} for l, o, g in zip(jlines, jimpl, jgot) if o != g]
+        lines = lines + jlines
         return dict(evaluations=len(lines), distinct_nontrivial=len(set(lines)), samples=[{"case": l[:150], "result": r[0][:250]} for l, r in list(zip(lines, runs))[:3]],
                     disagreements=dis[:20], dist={"intervals": len(cases), "partly_initialized": sum(1 for c in cases if c["init"] < c["size"]),
                                                   "with_overlaps": sum(1 for c in cases if any(a[1] + a[2] > b[1] for a, b in zip(c["blocks"], c["blocks"][1:]))),
